@@ -2,6 +2,7 @@ package main
 
 import (
 	"os"
+	"strconv"
 	"strings"
 
 	"github.com/berquerant/crd/input/ast"
@@ -113,7 +114,11 @@ func VerifC10WriteConvPipe() {
 	defer verifReset(in, out)
 	symbol := []string{"m7", "", "sus4", "MinorTriad", "dim7"}[vf.NondetIntRange("symbol", 0, 4)]
 	base := []string{"3", "", "#1", "bb1", "b7", "#11", "1", "8"}[vf.NondetIntRange("base", 0, 7)]
-	os.WriteFile(in, []byte(verifDocBase(symbol, base)), 0o644)
+	// the lyric text: plain, or one of the texts YAML printers and readers are known to
+	// stumble over (these go through the real library, concretely)
+	lyric := []string{"la", " lead", "trail ", "a: b", "#x", "- y", "~", "null", "two\nlines\n", "\n x", "\ttab", "it's \"q\"", "é\u3000"}[vf.NondetIntRange("lyric", 0, 12)]
+	doc := strings.Replace(verifDocBase(symbol, base), "    lic: la\n", "    lic: "+strconv.Quote(lyric)+"\n", 1)
+	os.WriteFile(in, []byte(doc), 0o644)
 	vf.Assert("flags-parse", writeCmdConv.ParseFlags([]string{"--output", out, "--command", "cmt"}) == nil)
 	vf.Assert("conv-succeeds", writeCmdConv.RunE(writeCmdConv, []string{in}) == nil)
 	vf.Assert("flags-parse", writeCmdParse.ParseFlags(nil) == nil)
@@ -125,7 +130,8 @@ func VerifC10WriteConvPipe() {
 		return
 	}
 	vf.Assert("conv-output-means-the-same-music", verifSameInstances(orig.instances, again.instances))
-	vf.Assert("chord-text-added", len(again.instances) == 3 && again.instances[0].Meta != nil && again.instances[0].Meta.Get("txt") != "" && again.instances[0].Meta.Get("lic") == "la")
+	vf.Assert("chord-text-added", len(again.instances) == 3 && again.instances[0].Meta != nil && again.instances[0].Meta.Get("txt") != "")
+	vf.Assert("lyric-text-survives-write-conv", len(again.instances) == 3 && again.instances[0].Meta != nil && again.instances[0].Meta.Get("lic") == lyric && orig.instances[0].Meta.Get("lic") == lyric)
 	vf.Reach("end")
 }
 
